@@ -13,6 +13,38 @@ NOTE_COMMON = (
 )
 
 CHECKS = {
+    "C07": dict(
+        technique="Lean 4 proof (induction over chains and fuel; the AKAI walk is defined by well-founded recursion with a checked termination measure) + exhaustive correspondence over all small raw tables",
+        text=(
+            "Machine-checked: get_path resolves every well-formed chain (any sector order) to exactly its sectors (C07_getPath_wf), whatever it returns is a chain of the table (C07_getPath_sound), and on EVERY table "
+            "(cycles, self-links, cross-links, out-of-range links) it ends with a path of at most `size` sectors or one of two reported errors (C07_getPath_total, C07_getPath_cycle_reported); add_to_sector_links installs exactly "
+            "the chain it is given (C07_addLinks_chain); the AKAI SAT walk terminates on every word table — Lean's termination checker accepted the lexicographic measure (2*#clean - [current clean], size - current), proof in Smpl.Alloc.akai_measure — and the "
+            "Roland walk terminates by structural recursion on its loop guard. NOT yet proved (validated exhaustively instead): that the two *decoders* install exactly the well-formed chains (C07_akai_wf / C07_roland_wf of DESIGN). "
+            "Tie: every raw AKAI table of 5 sectors over {free, EOF, both reserved flags, each link, out of range} and every small Roland table, decode + get_path from every start, model vs real code; property oracle computed from the raw words independently. "
+            "Three genuine defects were found by this check and repaired (fix: commits 496f278, 38611f1, 60236d3)."
+        ),
+        design_ref="DESIGN.md §4 C07",
+    ),
+    "C08": dict(
+        technique="Lean 4 proof (refinement of every stream class to an abstract read-only file, composed by induction over the nesting; sector read plan by induction) + exhaustive short-history correspondence",
+        text=(
+            "Machine-checked refinement: each class (StreamWrapper, StreamOffset, FileStream, SectorStream, MdfStream) is proved to behave as a read-only file over its logical content in EVERY store satisfying the global cursor invariant — "
+            "whatever the cursors of the objects beneath it are — and the lemmas compose by induction over an arbitrary nesting (build_isFile). C08_refines: for any history of tell/seek(offset,whence)/read(n>=0) the answers equal those of the abstract file "
+            "(read returns the logical bytes clipped at the end, cursor advances by the bytes returned, seek clamps to [0,len]); C08_window: nothing outside the window is returned. The multi-sector read plan of SectorStream._read is proved to return the exact slice "
+            "for any sector size and any chain order (readPieces_spec). NOT yet proved: StreamReversed (modelled, tied and checked by the oracle; theorem pending). Tie: all histories of length <= 2 (+ stripes of 3/4) over 7 shapes and random nests to depth 4, model vs real objects over BytesIO. "
+            "One genuine defect found and repaired (fix: 000eb96, read at the exact end of a chained file raised IndexError)."
+        ),
+        design_ref="DESIGN.md §4 C08",
+    ),
+    "C11": dict(
+        technique="Lean 4 proof (frame/footprint argument over a shared store: every interleaving equals a product of independent abstract files) + exhaustive interleaving correspondence",
+        text=(
+            "Machine-checked: C11_noninterference — for any family of stream objects over one shared store (footprints may overlap arbitrarily: shared partition window, data-area window, raw-sector view, OS file) whose own cells are pairwise outside each other's footprints, "
+            "ANY schedule of tell/seek/read on any of them gives exactly the answers of independent read-only files with separate cursors; C11_projection: each stream's answers are those of running its own operations alone; C11_stereo: the alternating left/right block reads of a stereo export. "
+            "It rests on the C08 class lemmas being stated for every store. Tie: every interleaving of 2-3 streams x small programs over 6 sharing topologies + random schedules, model vs real objects, and an isolated-run oracle."
+        ),
+        design_ref="DESIGN.md §4 C11",
+    ),
     "C18": dict(
         technique="Lean 4 proof (decide +kernel over complete finite domains, induction for unbounded strings/ints) + translator-generated tables (Gen = model) + exhaustive correspondence",
         text=(
